@@ -51,8 +51,8 @@ impl Ctx {
     }
 
     /// EE certificate for an object of `kind` with EE facet `ee` and coverage facet `cover`.
-    fn ee_cert(&mut self, kind: &str, ee: &str, cover: &str) -> Vec<u8> {
-        let key = format!("{kind}/{ee}/{cover}");
+    fn ee_cert(&mut self, kind: &str, ee: &str, cover: &str, fam: &str) -> Vec<u8> {
+        let key = format!("{kind}/{ee}/{cover}/{fam}");
         if let Some(d) = self.ee_cache.get(&key) {
             return d.clone();
         }
@@ -64,7 +64,12 @@ impl Ctx {
             _ => Validity::new(now - h(24), now + h(24)),
         };
         let (v4, v6, asn) = match (kind, cover) {
-            ("roa", _) => (rc("blocks", &["a1"]), rc("missing", &[]), rc("missing", &[])),
+            // the family the facet lives in holds atom a1; with "+" the other family holds a1 as well, otherwise nothing
+            ("roa", _) => match fam {
+                "v6" => (rc("missing", &[]), rc("blocks", &["a1"]), rc("missing", &[])),
+                "v4+" | "v6+" => (rc("blocks", &["a1"]), rc("blocks", &["a1"]), rc("missing", &[])),
+                _ => (rc("blocks", &["a1"]), rc("missing", &[]), rc("missing", &[])),
+            },
             ("aspa", "inherit") => (rc("missing", &[]), rc("missing", &[]), rc("inherit", &[])),
             ("aspa", "ipinherit") => (rc("inherit", &[]), rc("missing", &[]), rc("blocks", &["a1"])),
             ("aspa", "hasip4") => (rc("blocks", &["a1"]), rc("missing", &[]), rc("blocks", &["a1"])),
@@ -75,8 +80,16 @@ impl Ctx {
         };
         let raw = if (kind, cover) == ("roa", "straddle") {
             use rpki::repository::resources::{Addr, IpBlock, IpBlocks, IpResources, AsResources};
-            let b: IpBlocks = [IpBlock::from((Addr::from_bits(0x0A00_0000u128 << 96), Addr::from_bits((0x0A00_00BFu128 << 96) | ((1u128 << 96) - 1))))].into_iter().collect();
-            Some((IpResources::blocks(b), IpResources::missing(), AsResources::missing()))
+            // three quarters of atom a1, as a range: the second ROA prefix (the upper half of a1) sticks out at the end
+            let b4: IpBlocks = [IpBlock::from((Addr::from_bits(0x0A00_0000u128 << 96), Addr::from_bits((0x0A00_00BFu128 << 96) | ((1u128 << 96) - 1))))].into_iter().collect();
+            let b6: IpBlocks = [IpBlock::from((Addr::from_bits(0x2001_0db8u128 << 96), Addr::from_bits((0x2001_0db8_0000_bfffu128 << 64) | ((1u128 << 64) - 1))))].into_iter().collect();
+            let whole = |f: &str| IpResources::blocks(ip_blocks(f, &["a1".to_string()]));
+            Some(match fam {
+                "v6" => (IpResources::missing(), IpResources::blocks(b6), AsResources::missing()),
+                "v6+" => (whole("v4"), IpResources::blocks(b6), AsResources::missing()),
+                "v4+" => (IpResources::blocks(b4), whole("v6"), AsResources::missing()),
+                _ => (IpResources::blocks(b4), IpResources::missing(), AsResources::missing()),
+            })
         } else { None };
         let p = CertParams {
             kind: if ee == "isca" { "ca".into() } else { "ee".into() }, key: "e0".into(),
@@ -91,21 +104,37 @@ impl Ctx {
     }
 }
 
-fn roa_content(cover: &str) -> Vec<u8> {
-    let (outside, v6) = (cover == "outside", cover == "nores");
-    // 10.0.0.0/25 max 26 and 10.0.0.128/25 inside atom a1 (10.0.0.0/24); 10.0.2.0/24 lies outside
-    let pfx = |addr: u32, len: u8, ml: Option<u8>| {
-        let mut v = vec![der::bits128((addr as u128) << 96, len)];
+fn roa_content(cover: &str, fam: &str) -> Vec<u8> {
+    let pfx = |addr: u128, len: u8, ml: Option<u8>| {
+        let mut v = vec![der::bits128(addr, len)];
         if let Some(m) = ml { v.push(der::uint(m as u128)); }
         der::seq(&v)
     };
-    let mut v4 = vec![pfx(0x0A00_0000, 25, Some(26)), pfx(0x0A00_0080, 25, None)];
-    if outside { v4.push(pfx(0x0A00_0200, 24, None)); }
-    // less specific than the certificate's block 10.0.0.0/24: shares addresses with it but is not contained
-    if cover == "wider" { v4.push(pfx(0x0A00_0000, 23, None)); }
-    // ("straddle": the prefixes stay as they are; the certificate holds 10.0.0.0-10.0.0.191, so 10.0.0.128/25 sticks out)
-    let mut fams = vec![der::seq(&[der::octets(&[0, 1]), der::seq(&v4)])];
-    if v6 { fams.push(der::seq(&[der::octets(&[0, 2]), der::seq(&[der::seq(&[der::bits128(0x2001_0db8u128 << 96, 48)])])])); }
+    // per family: two prefixes inside atom a1 (its lower half with a max length, its upper half), a prefix outside (atom a2),
+    // the prefix one bit less specific than a1
+    let inside = |six: bool| if six { vec![pfx(0x2001_0db8u128 << 96, 49, Some(50)), pfx(0x2001_0db8_0000_8000u128 << 64, 49, None)] }
+                             else { vec![pfx(0x0A00_0000u128 << 96, 25, Some(26)), pfx(0x0A00_0080u128 << 96, 25, None)] };
+    let outside = |six: bool| if six { pfx(0x2001_0db8_0002u128 << 80, 48, None) } else { pfx(0x0A00_0200u128 << 96, 24, None) };
+    let wider = |six: bool| if six { pfx(0x2001_0db8u128 << 96, 47, None) } else { pfx(0x0A00_0000u128 << 96, 23, None) };
+    let six = fam.starts_with("v6");
+    let mut main = inside(six);
+    if cover == "outside" { main.push(outside(six)); }
+    // less specific than the certificate's block: shares addresses with it but is not contained
+    if cover == "wider" { main.push(wider(six)); }
+    // ("straddle": the prefixes stay as they are; the certificate holds three quarters of a1, so the upper half sticks out)
+    let mut v4: Vec<Vec<u8>> = Vec::new();
+    let mut v6: Vec<Vec<u8>> = Vec::new();
+    if six { v6 = main } else { v4 = main }
+    if fam.ends_with('+') {
+        if six { v4 = inside(false) } else { v6 = inside(true) }
+    }
+    // a prefix of the family the certificate has no resources for
+    if cover == "nores" {
+        if six { v4 = vec![pfx(0x0A00_0000u128 << 96, 24, None)] } else { v6 = vec![pfx(0x2001_0db8u128 << 96, 48, None)] }
+    }
+    let mut fams = Vec::new();
+    if !v4.is_empty() { fams.push(der::seq(&[der::octets(&[0, 1]), der::seq(&v4)])); }
+    if !v6.is_empty() { fams.push(der::seq(&[der::octets(&[0, 2]), der::seq(&v6)])); }
     der::seq(&[der::uint(64500), der::seq(&fams)])
 }
 fn aspa_content(customer: u32) -> Vec<u8> {
@@ -141,7 +170,7 @@ pub fn assemble(ctx: &mut Ctx, c: &Value) -> (Vec<u8>, bool) {
     let f = &c["f"];
     let g = |k: &str| f[k].as_str().unwrap();
     let content = match kind {
-        "roa" => roa_content(g("cover")),
+        "roa" => roa_content(g("cover"), c["fam"].as_str().unwrap_or("v4")),
         "aspa" => aspa_content(if g("cover") == "outside" { 64497 } else { 64496 }),
         "mft" => mft_content(),
         _ => b"generic RPKI signed object content".to_vec(),
@@ -179,7 +208,7 @@ pub fn assemble(ctx: &mut Ctx, c: &Value) -> (Vec<u8>, bool) {
     let mut sid = ctx.pki.pubkey("e0").key_identifier().as_slice().to_vec();
     if g("ee") == "skibad" { sid[19] ^= 0x01; }          // the signer identifier follows the certificate's (wrong) identifier
     if g("sid") == "bad" { sid[0] ^= 0x80; }
-    let ee = ctx.ee_cert(kind, g("ee"), g("cover"));
+    let ee = ctx.ee_cert(kind, g("ee"), g("cover"), c["fam"].as_str().unwrap_or("v4"));
     let bytes = signed_data(&SignedDataParts { content_type: ct_oid, content, attrs, certs: vec![ee], crls: vec![], sid, signature });
     (bytes, g("crl") == "revoked")
 }
@@ -222,7 +251,8 @@ pub fn replay(args: &[String]) {
             if !strict && !c["relaxed"].as_bool().unwrap_or(true) {
                 continue;
             }
-            let mode = if strict { "" } else { ":relaxed" };
+            let fam = c["fam"].as_str().unwrap_or("v4");
+            let mode = format!("{}{}", if kind == "roa" && fam != "v4" { format!(":{fam}") } else { String::new() }, if strict { "" } else { ":relaxed" });
             let r = guarded(|| {
                 let (bytes, revoked) = assemble(&mut ctx, c);
                 let issuer = if c["f"]["cover"] == "ipinherit" { &ctx.issuer_as_only } else { &ctx.issuer };
